@@ -26,6 +26,8 @@ ASSUMPTIONS = ["contracts of WCSHelper.sky2pix_ellipse and "
                "fitting.elliptical_gaussian (units.py)"]
 
 MUTANTS = [
+    ("frac = 0 falls back to the sigma threshold", "AegeanTools/AeRes.py",
+     "            if frac is not None:", "            if frac:", "C14-R5"),
     ("axes sorted into (major, minor) without rotating the angle",
      "AegeanTools/AeRes.py",
      'src.a/3600,\n                                                          src.b/3600, src.pa)',
@@ -451,6 +453,41 @@ def run(ctx):
               okcmp and got == want,
               "masked pixels are those with model >= frac*peak_flux (frac "
               "given) or >= sigma*local_rms", node=wh[0] if wh else mm.node)
+    # which threshold is used: the frac threshold whenever frac is GIVEN
+    # (0 included: frac = 0 blanks every pixel the model reaches), the
+    # sigma threshold only for frac = None -- the selecting tests are
+    # interpreted for frac in {None, 0, 0.0, 0.25}
+    from .. import concrete as _conc
+    sel = [s_ for s_ in ast.walk(mm.node)
+           if isinstance(s_, (ast.If, ast.IfExp)) and
+           "frac" in names_in(s_.test) and not isinstance(
+               s_.test, ast.Compare) or isinstance(s_, (ast.If, ast.IfExp))
+           and isinstance(s_.test, ast.Compare) and
+           "frac" in names_in(s_.test)]
+    nsel = 0
+    for s_ in sel:
+        uses_frac_body = "frac" in {x.id for b in (
+            s_.body if isinstance(s_.body, list) else [s_.body])
+            for x in ast.walk(b) if isinstance(x, ast.Name)}
+        badv = []
+        for v_ in (None, 0, 0.0, 0.25):
+            try:
+                t_ = bool(_conc.ev(s_.test, {"frac": v_}))
+            except _conc.Unknown as e:
+                raise AnalysisError("C14-R5: threshold selection %s: %s" %
+                                    (norm(s_.test), e))
+            takes_frac = t_ if uses_frac_body else not t_
+            if takes_frac != (v_ is not None):
+                badv.append(v_)
+        nsel += 1
+        ctx.check("C14-R5", mm, "threshold selected by `%s`" %
+                  norm(s_.test, 50), not badv,
+                  "with frac = %s the %s threshold is used: a fraction of "
+                  "exactly 0 is a request (blank everything the model "
+                  "touches), only frac = None means `use sigma`" %
+                  (badv[0] if badv else "", "sigma" if badv and
+                   badv[0] is not None else "frac"), node=s_)
+    ctx.floor("C14-R5", nsel, 1, "tests selecting the mask threshold")
     st = [s for s in walk_no_nested(mm.node) if isinstance(s, ast.Assign) and
           norm(s.targets[0]).replace(" ", "") ==
           "%s[x[indices],y[indices]]" % MARR]
